@@ -4,7 +4,8 @@
 From Coq Require Import List NArith Bool String.
 From Coq.Strings Require Import Byte.
 From GM Require Import Codec.Packet Topic.MatchSpec Broker.Backend Broker.BackendSpec
-  Broker.BackendProofs Broker.BackendProofsPublish Broker.BackendProofsSteps Broker.BackendProofsHist.
+  Broker.BackendProofs Broker.BackendProofsPublish Broker.BackendProofsSteps Broker.BackendProofsReplay
+  Broker.BackendProofsHist.
 Import ListNotations.
 Open Scope N_scope.
 
@@ -37,6 +38,18 @@ Print Assumptions C11_replay.
 Theorem C11_cap : forall cap ops, holds_along qos_ok cap ops.
 Proof. exact qos_along. Qed.
 Print Assumptions C11_cap.
+
+(* and a replayed message always has such a filter: everything a Subscribe appends comes from the retained map and
+   matches a filter the session holds right after the Subscribe (it cannot leave uncapped for lack of a subscription) *)
+Theorem C11_cap_applies : forall st c subs b k s,
+  session_of st c = Some (k, s) ->
+  let (r, st') := subscribe st c subs b in
+  r <> RBadOracle ->
+  forall s' m, get_session st' k = Some s' ->
+    In m (skipn (List.length (s_tq s)) (s_tq s')) ->
+    has_match (s_subs s') (m_topic m) = true /\ exists t, In (t, m) (st_retained st).
+Proof. exact subscribe_replayed_match. Qed.
+Print Assumptions C11_cap_applies.
 
 (* wherever a Publish made a queue grow, the new element has retain = false, same topic and payload *)
 Theorem C11_live_copy : forall cap ops, holds_along live_copy_ok cap ops.
